@@ -39,6 +39,9 @@ func Operand(t *rapid.T, genesis bool, label string) []byte {
 	case 0, 1, 2:
 		return gen.Bytes(t, rapid.IntRange(0, 6).Draw(t, label+"_n"), label)
 	case 3:
+		if rapid.Bool().Draw(t, label+"_structured") {
+			return LongValue(t, genesis, label)
+		}
 		if genesis {
 			n := rapid.SampledFrom([]int{10, 33, 75, 76, 255, 256, 520, 521, 1000}).Draw(t, label+"_big")
 			return gen.FillBytes(t, n, label)
@@ -50,6 +53,37 @@ func Operand(t *rapid.T, genesis bool, label string) []byte {
 	default:
 		return append([]byte{}, NumPool[rapid.IntRange(0, len(NumPool)-1).Draw(t, label+"_p")]...)
 	}
+}
+
+// LongValue draws a long item whose VALUE is an edge although its length is not: zero, negative
+// zero (all zero bytes, sign bit in the last), a single set bit in the first, a middle or the
+// last-but-one byte, a lone sign bit with a non-zero first byte, all ones. Lengths sit on and next
+// to the word, cache-line and limit sizes (8, 16, 32, 64, 72, 128, 256, 512, 520, 1024).
+func LongValue(t *rapid.T, genesis bool, label string) []byte {
+	lens := []int{5, 7, 8, 9, 15, 16, 17, 24, 31, 32, 33, 56, 63, 64, 65, 72, 100, 127, 128, 129, 255, 256, 512, 519, 520}
+	if genesis {
+		lens = append(lens, 521, 1000, 1023, 1024, 1025, 2048)
+	}
+	n := rapid.SampledFrom(lens).Draw(t, label+"_len")
+	v := make([]byte, n)
+	switch rapid.IntRange(0, 7).Draw(t, label+"_shape") {
+	case 0: // zero
+	case 1, 2: // negative zero
+		v[n-1] = 0x80
+	case 3:
+		v[0] = 0x01
+	case 4:
+		v[n/2] = 0x10
+	case 5:
+		v[n-2] = 0x80
+	case 6:
+		v[0], v[n-1] = 0x01, 0x80
+	default:
+		for i := range v {
+			v[i] = 0xff
+		}
+	}
+	return v
 }
 
 // Push encodes a push of d: minimal form unless nonMinimal selects a longer one.
